@@ -48,6 +48,8 @@ pub fn check(tier: Tier) -> Check {
     }
     // persistent back-pressure on the write half: causes arriving while a packet is half written
     parts.push(Part::new("C13/causes", json!({"depth": tier.pick(4, 5), "wb": true}), 1, tier.pick(40, 600)));
+    // value flavour (DESIGN 4): the same exploration with requests / inbound messages of unusual content
+    parts.push(Part::new("C13/causes", json!({"depth": tier.pick(4, 5), "vals": 1}), tier.pick(0, 1), tier.pick(40, 600)));
     Check {
         also_rel: false,
         property: "C13",
